@@ -62,6 +62,11 @@ CutRuns(m, c, fr, vis) ==
   ELSE UNION { LET new == Edges(m, s) \ vis IN
                CutRuns(m, c, (fr \ {s}) \cup (new \ ExplAbs(m)), vis \cup new) : s \in fr }
 CutResults(m, c) == CutRuns(m, c, Frontier0(m), InitSupp(m))
+\* reachable_states is a function of the MDP and of its own argument only: in any history of calls on one object
+\* (keyword, positional or default argument, any earlier calls with other values) call number i with argument
+\* c_i must return a member of CutResults(m, c_i).  The oracle has no history variable, so the driver judges
+\* every call of a history with this one predicate.
+AdmissibleCall(m, c, X) == X \in CutResults(m, c)
 
 \* keyed views, straight from the functional definition
 OT(m, s, a, t) == IF m.avail[s][a] = 1 THEN m.P[s][a][t] ELSE 0                 \* over PD
